@@ -399,7 +399,7 @@ func isStringKind(x interface{}) bool {
 // C05Typed: the same leaves in a container whose slots have the leaves' own
 // type and in one whose slots are interface-typed.
 type C05Typed struct {
-	Shape  string     `json:"shape"` // slice, array, map, struct, pstruct, rvslice
+	Shape  string     `json:"shape"` // slice, array, map, struct, pstruct, rvslice, rvro
 	Leaves []*Val     `json:"leaves"`
 	Dir    *Directive `json:"dir"`
 	Reg    []string   `json:"reg,omitempty"`
@@ -426,6 +426,15 @@ func checkC05Typed(s *C05Typed) Result {
 	v0, v1 := reflect.ValueOf(xs[0]), reflect.ValueOf(xs[1])
 	var typed, untyped interface{}
 	switch s.Shape {
+	case "rvro":
+		// a reflect.Value operand of the leaf's own static type that was
+		// reached through an unexported field (CanInterface is false), against
+		// the leaf itself: for types without methods nothing but the type and
+		// the bits decide what is printed
+		sl := reflect.MakeSlice(reflect.SliceOf(t0), 1, 1)
+		sl.Index(0).Set(v0)
+		typed = reflect.ValueOf(StructA{z: sl.Interface()}).Field(2).Elem().Index(0)
+		untyped = xs[0]
 	case "slice", "rvslice", "array":
 		if t0 != t1 {
 			return res
